@@ -238,6 +238,11 @@ func TestCheck(t *testing.T) {
 		hidx := hi
 		if race {
 			hidx += 100
+		} else if tier == "quick" && hi == nh-1 {
+			// the quick tier's last history is one on which only older
+			// hardforks are enabled (seed-dependent stage); the thorough tier
+			// reaches those indices by itself
+			hidx = 5 + 7*(int(ev.Seed())%4)
 		}
 		h := build(t, hidx, nb, false, nil)
 		if h.P.Rejected != nil {
